@@ -8,7 +8,7 @@ import typing as t
 
 from .load import AnalysisError, Cls, Func, Repo, strip_docstring, unparse  # noqa: F401
 from .sym import Lin, Ref, SBytes, Seg, SObj, SStr, STuple, Unknown
-from .symeval import BSlice, CallVal, BoolVal, Evaluator, Read, ReadVal, State, SView, TRef, Unsupported, parse_type, typed_value
+from .symeval import BSlice, CallVal, BoolVal, Evaluator, Read, ReadVal, SCat, State, SView, TRef, Unsupported, parse_type, typed_value
 
 
 class NeedFork(Exception):
@@ -295,6 +295,9 @@ class Interp:
             return [(st, Outcome("fall"))]
         if isinstance(s.op, ast.Add) and isinstance(cur, list) and isinstance(val, (list, STuple)):
             st.env[name] = list(cur) + list(val if isinstance(val, list) else val.items)
+            return [(st, Outcome("fall"))]
+        if isinstance(s.op, ast.Add) and isinstance(cur, (CallVal, SCat)) and isinstance(val, (CallVal, SBytes, SCat)):
+            st.env[name] = SCat((cur.parts if isinstance(cur, SCat) else [cur]) + (val.parts if isinstance(val, SCat) else [val]))
             return [(st, Outcome("fall"))]
         if isinstance(cur, Lin) or isinstance(cur, (int, bool)):
             a = self.ev.as_lin(cur, s)
